@@ -330,24 +330,23 @@ Lemma window_sound ed aw t ts nb na :
   (nb <= a <= na + grace_ns)%Z /\
   exists k, (-1 <= k <= 1)%Z /\ (nb, na) = new_epoch (Z.quot (t / sec) d + k) d.
 Proof.
-  unfold get_key_within_window.
+  unfold get_key_within_window. cbv zeta.
   destruct (Z.quot ed sec =? 0)%Z; [discriminate|].
   set (d := Z.quot ed sec). set (idx := Z.quot (t / sec) d).
-  set (ok := fun e : Z * Z => contains (t - Z.quot aw 2) (t + Z.quot aw 2) (abs_time (fst e) ts) &&
-                             within_grace e (abs_time (fst e) ts)).
-  assert (S : forall e, ok e = true ->
+  assert (S : forall e, contains (t - Z.quot aw 2) (t + Z.quot aw 2) (abs_time (fst e) ts) &&
+                        within_grace e (abs_time (fst e) ts) = true ->
      (t - Z.quot aw 2 <= abs_time (fst e) ts <= t + Z.quot aw 2)%Z /\
      (fst e <= abs_time (fst e) ts <= snd e + grace_ns)%Z).
-  { intros e H. unfold ok, within_grace in H. apply andb_true_iff in H as [H1 H2].
+  { intros e H. unfold within_grace in H. apply andb_true_iff in H as [H1 H2].
     apply contains_spec in H1. apply contains_spec in H2. auto. }
-  destruct (ok (new_epoch idx d)) eqn:O1.
-  - intros E; inversion E; subst. cbv zeta. destruct (S _ O1). split; [tauto|]. split; [tauto|].
+  match goal with |- (if ?c then _ else _) = _ -> _ => destruct c eqn:O1 end.
+  - intros E; injection E as <- <-. destruct (S _ O1). split; [tauto|]. split; [tauto|].
     exists 0%Z. split; [lia|]. rewrite Z.add_0_r. apply surjective_pairing.
-  - destruct (ok (new_epoch (idx - 1) d)) eqn:O2.
-    + intros E; inversion E; subst. cbv zeta. destruct (S _ O2). split; [tauto|]. split; [tauto|].
+  - match goal with |- (if ?c then _ else _) = _ -> _ => destruct c eqn:O2 end.
+    + intros E; injection E as <- <-. destruct (S _ O2). split; [tauto|]. split; [tauto|].
       exists (-1)%Z. split; [lia|]. apply surjective_pairing.
-    + destruct (ok (new_epoch (idx + 1) d)) eqn:O3; [|discriminate].
-      intros E; inversion E; subst. cbv zeta. destruct (S _ O3). split; [tauto|]. split; [tauto|].
+    + match goal with |- (if ?c then _ else _) = _ -> _ => destruct c eqn:O3 end; [|discriminate].
+      intros E; injection E as <- <-. destruct (S _ O3). split; [tauto|]. split; [tauto|].
       exists 1%Z. split; [lia|]. apply surjective_pairing.
 Qed.
 
@@ -386,4 +385,106 @@ Proof.
   rewrite i64_small by (rewrite Z2N.id by lia; lia).
   rewrite Z2N.id by lia. split; [lia|].
   change (2 ^ 48) with (Z.to_N (2 ^ 48)%Z). apply Z2N.inj_lt; lia.
+Qed.
+
+(** ** every derivation input decodes back to its fields *)
+
+Lemma firstn_app_exact {A} (l r : list A) : firstn (length l) (l ++ r) = l.
+Proof. rewrite firstn_app, Nat.sub_diag, firstn_O, app_nil_r. apply firstn_all. Qed.
+
+Lemma skipn_app_exact {A} (l r : list A) : skipn (length l) (l ++ r) = r.
+Proof. rewrite skipn_app, Nat.sub_diag, skipn_all. reflexivity. Qed.
+
+Lemma all_zero_zeros n : all_zero (zeros n) = true.
+Proof. induction n as [|n IH]; [reflexivity|]. cbn. exact IH. Qed.
+
+Lemma input_len_ge n : (n <= input_len n)%nat.
+Proof.
+  unfold input_len. pose proof (Nat.div_mod_eq (n - 1) 16) as E.
+  pose proof (Nat.mod_upper_bound (n - 1) 16 ltac:(discriminate)) as B. lia.
+Qed.
+
+Lemma pad_length l : length (pad l) = input_len (length l).
+Proof.
+  unfold pad, zeros. rewrite app_length, repeat_length. pose proof (input_len_ge (length l)). lia.
+Qed.
+
+Lemma fields_eqb_refl x : fields_eqb x x = true.
+Proof.
+  destruct x as [[[a b] c] d]. unfold fields_eqb.
+  rewrite !N.eqb_refl, (proj2 (bytes_eqb_eq d d) eq_refl). reflexivity.
+Qed.
+
+(** decoding a padded [hdr ++ raw] whose address length is the one its type announces *)
+Lemma decode_lvl2 fmt kt t raw :
+  fmt <> 0 -> fmt <> 2 -> length raw = addr_len t ->
+  decode_input fmt (pad ([kt; t] ++ raw)) = Some (kt, 0, t, raw).
+Proof.
+  intros F0 F2 L.
+  pose proof (pad_length ([kt; t] ++ raw)) as PL.
+  unfold pad in *. cbn [app] in *.
+  assert (D : forall i, decode_input fmt i =
+              match i with
+              | kt :: t :: r =>
+                let n := addr_len t in
+                if Nat.eqb (length i) (input_len (2 + n)) && all_zero (skipn n r)
+                then Some (kt, 0, t, firstn n r) else None
+              | _ => None
+              end).
+  { intros i. unfold decode_input. destruct fmt as [|[[q|q|]|[q|q|]|]]; try reflexivity; congruence. }
+  rewrite D. clear D. cbv zeta. rewrite PL. cbn [length]. rewrite <- L.
+  rewrite firstn_app_exact, skipn_app_exact, all_zero_zeros.
+  cbn [Nat.add]. rewrite Nat.eqb_refl. reflexivity.
+Qed.
+
+Lemma decode_gen kt a b t raw :
+  length raw = addr_len t ->
+  decode_input 2 (pad ([kt] ++ [a; b] ++ [t] ++ raw)) = Some (kt, unbe [a; b], t, raw).
+Proof.
+  intros L.
+  pose proof (pad_length ([kt] ++ [a; b] ++ [t] ++ raw)) as PL.
+  unfold pad in *. cbn [app] in *.
+  unfold decode_input. cbv zeta. rewrite PL. cbn [length]. rewrite <- L.
+  rewrite firstn_app_exact, skipn_app_exact, all_zero_zeros.
+  cbn [Nat.add]. rewrite Nat.eqb_refl. reflexivity.
+Qed.
+
+Lemma input_ok_model fmt kt proto ia h :
+  input_ok fmt kt proto ia h (model_input fmt kt proto ia h) = true.
+Proof.
+  unfold input_ok.
+  destruct (model_input fmt kt proto ia h) as [i|] eqn:M; [|reflexivity].
+  assert (E : decode_input fmt i = input_fields fmt kt proto ia h);
+    [|rewrite E; destruct (input_fields fmt kt proto ia h) as [x|]; [apply fields_eqb_refl | reflexivity]].
+  destruct (N.eq_dec fmt 0) as [->|F0]; [|destruct (N.eq_dec fmt 2) as [->|F2]].
+  - cbn [model_input] in M. injection M as <-. cbn [input_fields].
+    unfold decode_input, lvl1_input. cbn [app].
+    replace (length (kt_as_as :: be 8 ia ++ zeros 7)) with 16%nat
+      by (cbn [length]; rewrite app_length, be_length; reflexivity).
+    cbn [Nat.eqb andb].
+    assert (F : firstn 8 (be 8 ia ++ zeros 7) = be 8 ia)
+      by (rewrite <- (be_length 8 ia) at 1; apply firstn_app_exact).
+    assert (S : skipn 8 (be 8 ia ++ zeros 7) = zeros 7)
+      by (rewrite <- (be_length 8 ia) at 1; apply skipn_app_exact).
+    rewrite F, S. reflexivity.
+  - cbn [model_input] in M. unfold gen_lvl2_input in M. cbn [input_fields].
+    destruct (pack_addr h) as [[t raw]|] eqn:P; [|discriminate].
+    apply pack_addr_wf in P as [T L]. rewrite (type_nibble _ T) in M.
+    destruct (be2_form proto) as (a & b & Q). rewrite Q in *.
+    assert (Ei : i = pad ([kt] ++ [a; b] ++ [t] ++ raw)) by congruence.
+    subst i. now apply decode_gen.
+  - assert (M' : model_input fmt kt proto ia h =
+                 if fmt =? 1 then spec_lvl2_input kt h else hh_input h).
+    { unfold model_input. destruct fmt as [|[[q|q|]|[q|q|]|]]; try reflexivity; congruence. }
+    assert (I' : input_fields fmt kt proto ia h =
+                 match pack_addr h with
+                 | Some (t, raw) => Some (if fmt =? 1 then kt else kt_host_host, 0, t, raw)
+                 | None => None end).
+    { unfold input_fields. destruct fmt as [|[[q|q|]|[q|q|]|]]; try reflexivity; congruence. }
+    rewrite M' in M. rewrite I'. unfold spec_lvl2_input, hh_input in M.
+    destruct (pack_addr h) as [[t raw]|] eqn:P; [|destruct (fmt =? 1); discriminate].
+    apply pack_addr_wf in P as [T L]. rewrite (type_nibble _ T) in M.
+    destruct (fmt =? 1).
+    + assert (Ei : i = pad ([kt; t] ++ raw)) by congruence. subst i. now apply decode_lvl2.
+    + assert (Ei : i = pad ([kt_host_host; t] ++ raw)) by congruence. subst i. now apply decode_lvl2.
 Qed.
